@@ -1192,8 +1192,11 @@ class TLSConnection(TLSRecordLayer):
                 AlertDescription.illegal_parameter,
                 "Server responded with unrequested NPN Extension"):
                 yield result
+        # (all TLS 1.3 key derivation is bound to the handshake transcript,
+        # the extension is not used there)
         if not serverHello.getExtension(ExtensionType.extended_master_secret)\
-            and settings.requireExtendedMasterSecret:
+            and settings.requireExtendedMasterSecret \
+            and real_version < (3, 4):
             for result in self._sendError(
                     AlertDescription.insufficient_security,
                     "Negotiation of Extended master Secret failed"):
@@ -1756,6 +1759,24 @@ class TLSConnection(TLSRecordLayer):
         appProto = None
         alpnExt = encrypted_extensions.getExtension(ExtensionType.alpn)
         if alpnExt:
+            if not alpnExt.protocol_names or \
+                    len(alpnExt.protocol_names) != 1:
+                for result in self._sendError(
+                        AlertDescription.illegal_parameter,
+                        "Server responded with invalid ALPN extension"):
+                    yield result
+            clntAlpnExt = clientHello.getExtension(ExtensionType.alpn)
+            if not clntAlpnExt:
+                for result in self._sendError(
+                        AlertDescription.unsupported_extension,
+                        "Server sent ALPN extension without one in "
+                        "client hello"):
+                    yield result
+            if alpnExt.protocol_names[0] not in clntAlpnExt.protocol_names:
+                for result in self._sendError(
+                        AlertDescription.illegal_parameter,
+                        "Server selected ALPN protocol we did not advertise"):
+                    yield result
             appProto = alpnExt.protocol_names[0]
 
         heartbeat_ext = encrypted_extensions.getExtension(ExtensionType.heartbeat)
